@@ -1,0 +1,192 @@
+//go:build verif
+
+// Contracts for package tlog, read by /verif/engine (govc).  Comment-only.
+
+package tlog
+
+//@ # ---------- RFC 6962 section 2.1: Merkle tree hash over an abstract log ----------
+//@ # leaf(i): record hash of record i of the log (uninterpreted: any log)
+//@ spec func leaf(i int) Hash
+//@ # K(n): largest power of two smaller than n (n >= 2)
+//@ spec func K(n int) int decreases n = if n <= 2 then 1 else 2 * K((n + 1) / 2)
+//@ # MTH over records [lo, hi)
+//@ spec func MTH(lo int, hi int) Hash decreases hi - lo uses K_bounds =
+//@     if hi <= lo + 1 then leaf(lo) else NodeHash(MTH(lo, lo + K(hi - lo)), MTH(lo + K(hi - lo), hi))
+
+//@ lemma K_bounds(n int)
+//@   requires n >= 2
+//@   ensures 1 <= K(n) && K(n) < n && n <= 2 * K(n)
+//@   induction n
+//@   trigger K(n)
+//@   props C03 C09
+
+//@ # K is the unique power of two with K < n <= 2K
+//@ lemma K_char(n int, j int)
+//@   requires j >= 0 && pow2(j) < n && n <= pow2(j + 1)
+//@   ensures K(n) == pow2(j)
+//@   induction j
+//@   trigger K(n), pow2(j)
+//@   props C03 C09
+
+//@ axiom node_injective(a Hash, b Hash, c Hash, d Hash)
+//@   requires NodeHash(a, b) == NodeHash(c, d)
+//@   ensures a == c && b == d
+//@   trigger NodeHash(a, b), NodeHash(c, d)
+//@   reason "cryptographic idealisation: SHA-256 collision resistance (RFC 6962 security argument)"
+
+//@ func NodeHash
+//@   pure
+//@   trusted "SHA-256 call; modelled as an uninterpreted injective function (node_injective)"
+//@   props C03 C09 C10
+
+//@ func maxpow2
+//@   pure
+//@   requires n >= 2
+//@   ensures k == K(n) && k == pow2(l) && 0 <= l && l <= 62
+//@   loop 0:
+//@     invariant 0 <= l && l <= 62 && pow2(l) < n
+//@     decreases 62 - l
+//@   uses K_char
+//@   props C03 C09
+
+//@ # ---------- RFC 6962 2.1.1: audit paths ----------
+//@ # length of the audit path for record n in [lo, hi)
+//@ spec func PL(lo int, hi int, n int) int decreases hi - lo uses K_bounds =
+//@     if hi <= lo + 1 then 0 else if n < lo + K(hi - lo) then 1 + PL(lo, lo + K(hi - lo), n) else 1 + PL(lo + K(hi - lo), hi, n)
+//@ # root implied by the candidate path A[o .. o+m) (innermost sibling first) and leaf hash h
+//@ spec func RUNREC(A HashArr, o int, m int, lo int, hi int, n int, h Hash) Hash decreases hi - lo uses K_bounds =
+//@     if hi <= lo + 1 then h
+//@     else if n < lo + K(hi - lo) then NodeHash(RUNREC(A, o, m - 1, lo, lo + K(hi - lo), n, h), A[o + m - 1])
+//@     else NodeHash(A[o + m - 1], RUNREC(A, o, m - 1, lo + K(hi - lo), hi, n, h))
+//@ # A[o .. o+m) is exactly the RFC 6962 audit path PATH(n, D[lo:hi]) (stored innermost sibling first):
+//@ # for n below the split, PATH(n, D[lo:lo+k]) followed by MTH(D[lo+k:hi]); otherwise PATH(n, D[lo+k:hi]) followed by MTH(D[lo:lo+k])
+//@ spec func ISPATH(A HashArr, o int, m int, lo int, hi int, n int) bool decreases hi - lo uses K_bounds =
+//@     if hi <= lo + 1 then m == 0
+//@     else if n < lo + K(hi - lo) then m >= 1 && A[o + m - 1] == MTH(lo + K(hi - lo), hi) && ISPATH(A, o, m - 1, lo, lo + K(hi - lo), n)
+//@     else m >= 1 && A[o + m - 1] == MTH(lo, lo + K(hi - lo)) && ISPATH(A, o, m - 1, lo + K(hi - lo), hi, n)
+
+//@ lemma PL_nonneg(lo int, hi int, n int)
+//@   ensures PL(lo, hi, n) >= 0
+//@   induction hi - lo
+//@   uses K_bounds
+//@   trigger PL(lo, hi, n)
+//@   props C03
+
+//@ lemma ispath_len(A HashArr, o int, m int, lo int, hi int, n int)
+//@   requires ISPATH(A, o, m, lo, hi, n)
+//@   ensures m == PL(lo, hi, n)
+//@   induction hi - lo
+//@   uses K_bounds
+//@   trigger ISPATH(A, o, m, lo, hi, n)
+//@   props C03
+
+//@ # soundness: a path of the right length whose implied root is the true subtree hash is the true audit path with the true leaf
+//@ lemma runrec_sound(A HashArr, o int, m int, lo int, hi int, n int, h Hash)
+//@   requires lo <= n && n < hi && m == PL(lo, hi, n) && RUNREC(A, o, m, lo, hi, n, h) == MTH(lo, hi)
+//@   ensures h == leaf(n) && ISPATH(A, o, m, lo, hi, n)
+//@   induction hi - lo
+//@   trigger RUNREC(A, o, m, lo, hi, n, h)
+//@   uses K_bounds PL_nonneg node_injective
+//@   props C03
+
+//@ # completeness: the true audit path with the true leaf implies the true subtree hash
+//@ lemma runrec_complete(A HashArr, o int, m int, lo int, hi int, n int, h Hash)
+//@   requires lo <= n && n < hi && h == leaf(n) && ISPATH(A, o, m, lo, hi, n)
+//@   ensures RUNREC(A, o, m, lo, hi, n, h) == MTH(lo, hi)
+//@   induction hi - lo
+//@   trigger RUNREC(A, o, m, lo, hi, n, h)
+//@   uses K_bounds
+//@   props C03
+
+//@ func runRecordProof
+//@   requires lo <= n && n < hi && 0 <= lo
+//@   decreases hi - lo
+//@   ensures (result1 == nil) == (len(p) == PL(lo, hi, n))
+//@   ensures result1 == nil ==> result0 == RUNREC(arr(p), off(p), len(p), lo, hi, n, leafHash)
+//@   uses K_bounds PL_nonneg
+//@   props C03
+
+//@ # CheckRecord accepts exactly what the RFC 6962 verification algorithm accepts; bad sizes/indexes are errors
+//@ func CheckRecord
+//@   ensures (result == nil) == (0 <= n && n < t && len(p) == PL(0, t, n) && RUNREC(arr(p), off(p), len(p), 0, t, n, h) == th)
+//@   props C03
+
+//@ # ---------- RFC 6962 2.1.2: consistency proofs ----------
+//@ # length of SUBPROOF for old size n within [lo, hi); the flag b of the RFC is lo == 0
+//@ spec func TL(lo int, hi int, n int) int decreases hi - lo uses K_bounds =
+//@     if n >= hi || hi <= lo + 1 then (if lo == 0 then 0 else 1)
+//@     else if n <= lo + K(hi - lo) then 1 + TL(lo, lo + K(hi - lo), n) else 1 + TL(lo + K(hi - lo), hi, n)
+//@ # old and new roots implied by the candidate proof A[o .. o+m)
+//@ spec func RUNOLD(A HashArr, o int, m int, lo int, hi int, n int, old Hash) Hash decreases hi - lo uses K_bounds =
+//@     if n >= hi || hi <= lo + 1 then (if lo == 0 then old else A[o])
+//@     else if n <= lo + K(hi - lo) then RUNOLD(A, o, m - 1, lo, lo + K(hi - lo), n, old)
+//@     else NodeHash(A[o + m - 1], RUNOLD(A, o, m - 1, lo + K(hi - lo), hi, n, old))
+//@ spec func RUNNEW(A HashArr, o int, m int, lo int, hi int, n int, old Hash) Hash decreases hi - lo uses K_bounds =
+//@     if n >= hi || hi <= lo + 1 then (if lo == 0 then old else A[o])
+//@     else if n <= lo + K(hi - lo) then NodeHash(RUNNEW(A, o, m - 1, lo, lo + K(hi - lo), n, old), A[o + m - 1])
+//@     else NodeHash(A[o + m - 1], RUNNEW(A, o, m - 1, lo + K(hi - lo), hi, n, old))
+//@ # A[o .. o+m) is exactly SUBPROOF(n, D[lo:hi], lo == 0)
+//@ spec func ISTPROOF(A HashArr, o int, m int, lo int, hi int, n int) bool decreases hi - lo uses K_bounds =
+//@     if n >= hi || hi <= lo + 1 then (if lo == 0 then m == 0 else m == 1 && A[o] == MTH(lo, hi))
+//@     else if n <= lo + K(hi - lo) then m >= 1 && A[o + m - 1] == MTH(lo + K(hi - lo), hi) && ISTPROOF(A, o, m - 1, lo, lo + K(hi - lo), n)
+//@     else m >= 1 && A[o + m - 1] == MTH(lo, lo + K(hi - lo)) && ISTPROOF(A, o, m - 1, lo + K(hi - lo), hi, n)
+
+//@ lemma TL_nonneg(lo int, hi int, n int)
+//@   ensures TL(lo, hi, n) >= 0
+//@   induction hi - lo
+//@   uses K_bounds
+//@   trigger TL(lo, hi, n)
+//@   props C03
+
+//@ # the split point of a tree does not move while the tree still reaches beyond it
+//@ lemma K_same(n int, m int)
+//@   requires n >= 2 && K(n) < m && m <= n
+//@   ensures K(m) == K(n)
+//@   induction n
+//@   trigger K(n), K(m)
+//@   props C03 C09
+
+//@ lemma istproof_len(A HashArr, o int, m int, lo int, hi int, n int)
+//@   requires ISTPROOF(A, o, m, lo, hi, n)
+//@   ensures m == TL(lo, hi, n)
+//@   induction hi - lo
+//@   uses K_bounds
+//@   trigger ISTPROOF(A, o, m, lo, hi, n)
+//@   props C03
+
+//@ # soundness: if the implied new root is the true hash of [lo,hi), the implied old root is the true hash of [lo,n)
+//@ # and the proof is the RFC 6962 consistency proof
+//@ lemma treeproof_sound(A HashArr, o int, m int, lo int, hi int, n int, old Hash)
+//@   requires 0 <= lo && lo < n && n <= hi && m == TL(lo, hi, n) && RUNNEW(A, o, m, lo, hi, n, old) == MTH(lo, hi)
+//@   ensures ISTPROOF(A, o, m, lo, hi, n)
+//@   ensures RUNOLD(A, o, m, lo, hi, n, old) == MTH(lo, n)
+//@   induction hi - lo
+//@   trigger RUNNEW(A, o, m, lo, hi, n, old)
+//@   uses K_bounds K_same TL_nonneg node_injective
+//@   props C03
+
+//@ # completeness: the true consistency proof and the true old root imply the true roots
+//@ lemma treeproof_complete(A HashArr, o int, m int, lo int, hi int, n int, old Hash)
+//@   requires 0 <= lo && lo < n && n <= hi && ISTPROOF(A, o, m, lo, hi, n) && (lo == 0 ==> old == MTH(0, n))
+//@   ensures RUNNEW(A, o, m, lo, hi, n, old) == MTH(lo, hi)
+//@   ensures RUNOLD(A, o, m, lo, hi, n, old) == MTH(lo, n)
+//@   induction hi - lo
+//@   trigger ISTPROOF(A, o, m, lo, hi, n), RUNNEW(A, o, m, lo, hi, n, old)
+//@   hint K(n - lo)
+//@   hint K(hi - lo)
+//@   uses K_bounds K_same
+//@   props C03
+
+//@ func runTreeProof
+//@   requires 0 <= lo && lo < n && n <= hi
+//@   decreases hi - lo
+//@   ensures (result2 == nil) == (len(p) == TL(lo, hi, n))
+//@   ensures result2 == nil ==> result0 == RUNOLD(arr(p), off(p), len(p), lo, hi, n, old)
+//@   ensures result2 == nil ==> result1 == RUNNEW(arr(p), off(p), len(p), lo, hi, n, old)
+//@   uses K_bounds TL_nonneg
+//@   props C03
+
+//@ func CheckTree
+//@   ensures (result == nil) == (1 <= n && n <= t && len(p) == TL(0, t, n)
+//@             && RUNNEW(arr(p), off(p), len(p), 0, t, n, h) == th && RUNOLD(arr(p), off(p), len(p), 0, t, n, h) == h)
+//@   props C03
